@@ -42,8 +42,72 @@ def obligations(tier, seed):
             ok, det = False, {"exception": repr(e)}
         obs.append(Ob(name + ": equal-length histories, geometric alphas from the model's alpha, last count <= min_features, restored == best weights",
                       PROVED if ok else REFUTED, "native", "B", {**det, "replayed": True}, fn="gemclus.sparse._base_sparse._path"))
+    obs += _last_score_is_the_models(seed, X, tier)
+    obs.append(_dynamic_empty_selection())
     obs.append(_alpha_zero_watchdog(seed, X))
     return obs
+
+
+def _last_score_is_the_models(seed, X, tier):
+    """without restoration (dynamic mode, or restore_best_weights=False) the model ends in the state of the last step: the
+    last recorded score must be the validation score of THAT model -- the size-weighted mean, over consecutive blocks, of the
+    objective of its predictions with the affinity of the block, taken over the model's own current selection in dynamic mode.
+    Recomputed here without compute_val_score."""
+    from gemclus.sparse import SparseLinearMMD, SparseMLPMMD
+    obs = []
+    cfgs = [(SparseLinearMMD, dict(alpha=0.5, batch_size=None, dynamic=True), dict(alpha_multiplier=1.5, min_features=2)),
+            (SparseLinearMMD, dict(alpha=0.2, batch_size=10, dynamic=True), dict(alpha_multiplier=1.3, min_features=2)),
+            (SparseMLPMMD, dict(alpha=1.0, batch_size=7, n_hidden_dim=3, dynamic=True), dict(alpha_multiplier=1.7, min_features=2)),
+            (SparseLinearMMD, dict(alpha=0.5, batch_size=9, dynamic=False), dict(alpha_multiplier=1.5, min_features=2, restore_best_weights=False))]
+    for cls, kw, pk in cfgs:
+        name = f"path[{cls.__name__},{kw},{pk}]: the last recorded score is the validation score of the model the path ends with"
+        try:
+            with warnings.catch_warnings():
+                warnings.simplefilter("ignore")
+                m = cls(n_clusters=2, max_iter=6, learning_rate=0.05, random_state=seed, **kw)
+                bw, gem, pen, alphas, nf = m.path(X, **pk)
+                g = m.get_gemini()
+                cols = m.get_selection() if kw.get("dynamic") else np.arange(X.shape[1])
+                b = kw["batch_size"] or len(X)
+                tot = 0.0
+                for j in range(0, len(X), b):
+                    Xb = X[j:j + b]
+                    tot += float(g(m.predict_proba(Xb), g.compute_affinity(Xb[:, cols]))) * len(Xb)
+                want = tot / len(X)
+            ok = bool(np.isnan(gem[-1])) or abs(gem[-1] - want) <= 1e-9 * (1 + abs(want))
+            det = {"recorded": float(gem[-1]), "recomputed": float(want), "selection at the end": [int(c) for c in m.get_selection()],
+                   "n_features history": [int(x) for x in nf]}
+        except Exception as e:
+            if kw.get("dynamic") and len(m.get_selection()) == 0:
+                # the selection emptied inside a step and the validation score raised: the separate obligation below (finding D17)
+                obs.append(Ob(name, UNDECIDED, "native", "I", {"why": "the selection became empty inside a step: see the obligation on dynamic paths "
+                                                                        "whose last features vanish together", "exception": repr(e)[:200]},
+                              fn="gemclus.sparse._base_sparse._path"))
+                continue
+            ok, det = False, {"exception": repr(e)}
+        obs.append(Ob(name, PROVED if ok else REFUTED, "native", "B", {**det, "replayed": True}, fn="gemclus.sparse._base_sparse._path"))
+    return obs
+
+
+def _dynamic_empty_selection():
+    """a fixed input (independent of the run's seed) on which the last two features are eliminated in the same step of a
+    dynamic path: path() must still return its histories."""
+    from gemclus.sparse import SparseLinearMMD
+    rs = np.random.RandomState(1)
+    X = np.vstack([rs.normal(size=(12, 4)) + 2, rs.normal(size=(12, 4)) - 2])
+    X[:, 2:] = rs.normal(size=(24, 2)) * 0.1
+    inp = "SparseLinearMMD(n_clusters=2, max_iter=6, learning_rate=0.05, random_state=1, alpha=0.3, batch_size=10, dynamic=True).path(X, alpha_multiplier=1.6, min_features=1), X = 24x4 blobs of RandomState(1)"
+    try:
+        with warnings.catch_warnings():
+            warnings.simplefilter("ignore")
+            m = SparseLinearMMD(n_clusters=2, max_iter=6, learning_rate=0.05, random_state=1, alpha=0.3, batch_size=10, dynamic=True)
+            bw, gem, pen, alphas, nf = m.path(X, alpha_multiplier=1.6, min_features=1)
+        ok = len(gem) == len(pen) == len(alphas) == len(nf) and nf[-1] <= 1
+        det = {"n_features": [int(x) for x in nf]}
+    except Exception as e:
+        ok, det = False, {"input": inp, "exception": repr(e)[:300], "selection when it raised": [int(c) for c in m.get_selection()]}
+    return Ob("dynamic path() returns its histories when the last features are eliminated in the same step (empty selection)",
+              PROVED if ok else REFUTED, "native", "B", {**det, "replayed": True}, fn="gemclus.sparse._base_sparse._path")
 
 
 def _alpha_zero_watchdog(seed, X):
